@@ -9,10 +9,11 @@
   observable here: `Finalize` sorts, and every loop over the map only inserts entries
   whose content depends on their name alone.
 
-  Line parsing, globbing and the walk of `RecoverMissingLinks` are *not* modelled: the
-  harness expands every list line into `Step`s (one `addSingleFile` call, one deletion,
-  …) using the real directory tree; the tie of that expansion to the code is the
-  differential comparison of the final member sequence.
+  Line parsing and globbing are *not* modelled: the harness expands every list line into
+  `Step`s (one `addSingleFile` call, one deletion, …) using the real directory tree; the tie
+  of that expansion to the code is the differential comparison of the final member sequence.
+  The walk of `RecoverMissingLinks` is modelled in Lc/Model/StageLinks.lean; its candidate
+  list is what `Step.recover` carries (`Lc.Props.C06Links.walk_eq_recoverAll`).
 -/
 import Lc.Model.StageEntry
 
